@@ -464,7 +464,7 @@ fn run_case(globs_in: &[G], paths: &[Vec<u8>], drv: &mut Driver, rep: &mut Repor
                     rep.branch(&format!("strategy:{}", strat));
                     rep.branch(if f[3] == "1" { "glob:documented-grammar" } else { "glob:outside-documented-grammar" });
                     if f[5] == "1" {
-                        rep.branch("glob:simpleGlob(C12_doc_partial proved)");
+                        rep.branch("glob:docGuard(C12_doc_partial proved)");
                     }
                     if g.text.contains('{') {
                         rep.branch("glob:alternates");
@@ -671,7 +671,7 @@ fn main() {
         } else {
             &["a", ".", "/", "*", "*.a", "**/", "/**", "[!a]", "{a,.}"]
         };
-        let maxlen = 4;
+        let maxlen = if args.thorough { 5 } else { 4 };
         let paths = all_paths(maxlen);
         let mut texts: Vec<String> = vec![String::new()];
         let mut layer: Vec<String> = vec![String::new()];
